@@ -548,7 +548,7 @@ def run_case(ctx, case):
                     ctx.count("quality-reference:library-start-state-agrees")
                 else:
                     ctx.count("quality-reference:library-start-state-differs")
-            if q_after > ref * (1 + 1e-9) + 1e-9:
+            if not (q_after <= ref * (1 + 1e-9) + 1e-9):
                 worst = max((s for s in mon.steps if s["q0"] is not None and s["q1"] is not None), key=lambda s: s["q1"] - s["q0"],
                             default=None)
                 ctx.violation(
@@ -579,7 +579,7 @@ def run_case(ctx, case):
                 except Exception:  # noqa: BLE001
                     wind = 0.0
                 tol += 3e-13 * wind * extent  # measured: expm() rotations are off the circle by <= 3e-14 * angle * radius
-            if dist > tol:
+            if not (dist <= tol):
                 ctx.violation(f"off-manifold:{t}", f"{desc}: vertex {v} clamped by {spec} started at {_fmt(before[v])} and ended at "
                               f"{_fmt(after[v])}, {dist:.3e} off its manifold (tolerance {tol:.1e})")
             elif exc > 1e-9 * max(1.0, size):
@@ -594,7 +594,7 @@ def run_case(ctx, case):
             if moved[a] > 1e-6 * size:
                 ctx.count(f"moved:leader-of:{link['type']}")
             tol = (1e-6 if link["type"] == "rotation" else 1e-9) * scale
-            if err > tol:
+            if not (err <= tol):
                 ctx.violation(f"link-relation-broken:{link['type']}:leader={clamp_of[a]['type']}",
                               f"{desc}: {link} leader {a} went {_fmt(before[a])} -> {_fmt(after[a])}, follower {b} went {_fmt(before[b])} -> "
                               f"{_fmt(after[b])} but the relation puts it at {_fmt(want)} (off by {err:.3e})")
@@ -629,7 +629,7 @@ def run_case(ctx, case):
                 continue
             ctx.count("judged:never-accepted-clamp-in-place")
             d = float(np.linalg.norm(after[v] - s0[v]))
-            if d > 1e-9 * scale + (1.5e-7 if v in auto_vs else 0.0):  # an auto clamp's own snap (< TOL) is not observable
+            if not (d <= 1e-9 * scale + (1.5e-7 if v in auto_vs else 0.0)):  # an auto clamp's own snap (< TOL) is not observable
                 ctx.violation(f"never-accepted-clamp-displaced:{kind}:{clamp_of[v]['type']}",
                               f"{desc}: every step of the {clamp_of[v]['type']} clamp at vertex {v} was rolled back or skipped "
                               f"({[('skip' if s['skipped'] else 'rollback') for s in steps]}) but the vertex ended at {_fmt(after[v])}, "
